@@ -87,6 +87,16 @@ func buildProfile(s *Sim, r *rand.Rand) {
 		cfg.Gw.NoUnsubscribeDelay = r.IntN(4) == 0
 		cfg.Gw.ReferenceThrottle = rpick(r, []int{0, 0, 0, 1, 2, 3})
 		buildCoreWorld(s, r, 4+r.IntN(5))
+		if !faultFree && r.IntN(8) == 0 {
+			// subject-too-long failures (C09, C14): resource ids at the lengths
+			// where first the access and get requests, then the event subscription
+			// no longer fit a NATS control line
+			p.Faults["toolong"] = true
+			for i, n := 0, 1+r.IntN(2); i < n; i++ {
+				l := rpick(r, []int{4040, 4058, 4061, 4064, 4070, 4086, 4088, 4089, 4092, 4200})
+				p.RIDs = append(p.RIDs, "ex.l"+strings.Repeat("x", l-4))
+			}
+		}
 	default:
 		if f := profileBuilders[cfg.Profile]; f != nil {
 			f(s, r, p, arm)
